@@ -236,8 +236,9 @@ class CFG(object):
         for s in srcs:
             sid = s.id if isinstance(s, Node) else s
             if include_src:
-                if sid not in avoid:
-                    seen.add(sid)
+                if sid in avoid:
+                    continue      # a source that is itself a cut node starts nothing
+                seen.add(sid)
             work.append(sid)
         started = set()
         while work:
